@@ -13,6 +13,7 @@ from decimal import Decimal
 from types import ModuleType
 from typing import cast, Any, Optional, Union
 from xml.etree import ElementTree
+from xml.sax.saxutils import escape as xml_escape
 
 from elementpath.exceptions import ElementPathError, xpath_error
 from elementpath.namespaces import XSLT_XQUERY_SERIALIZATION_NAMESPACE
@@ -265,6 +266,15 @@ def iter_normalized(elements: Iterable[Any],
             yield sep.join(chunks)
 
 
+def remove_tail(text: str, tail: Optional[str]) -> str:
+    """Removes the serialized tail of an element from the end of its serialization."""
+    if tail:
+        for suffix in (xml_escape(tail), tail):
+            if text.endswith(suffix):
+                return text[:-len(suffix)]
+    return text
+
+
 def serialize_to_xml(elements: Iterable[Any],
                      etree_module: Optional[ModuleType] = None,
                      token: Optional['XPathToken'] = None,
@@ -315,11 +325,11 @@ def serialize_to_xml(elements: Iterable[Any],
             )
         except TypeError:
             ck = etree_module.tostring(elem, encoding='utf-8', method=method)
-            chunks.append(ck.decode('utf-8').rstrip(elem.tail))
+            chunks.append(remove_tail(ck.decode('utf-8'), elem.tail))
         else:
             if cks and cks[0].startswith(b'<?'):
                 cks[0] = cks[0].replace(b'\'', b'"')
-            chunks.append(b'\n'.join(cks).decode('utf-8').rstrip(elem.tail))
+            chunks.append(remove_tail(b''.join(cks).decode('utf-8'), elem.tail))
 
     if not character_map:
         return (item_separator or '').join(chunks)
@@ -364,7 +374,7 @@ def serialize_to_json(elements: Iterable[Any],
                     else:
                         if chunks and chunks[0].startswith(b'<?'):
                             chunks[0] = chunks[0].replace(b'\'', b'"')
-                        return b'\n'.join(chunks).decode('utf-8')
+                        return b''.join(chunks).decode('utf-8')
 
                 elif isinstance(obj, (AttributeNode, NamespaceNode)):
                     return f'{obj.name}="{obj.string_value}"'
